@@ -225,7 +225,7 @@ fn zero_right_pad_integer_ascii_digits(
 
     // did not explicitly request precision, so we'll only
     // implicitly right-pad if less than this threshold.
-    if target_scale.is_none() && integer_zero_count > 20 {
+    if target_scale.is_none() && integer_zero_count > EXPONENTIAL_FORMAT_TRAILING_ZERO_THRESHOLD {
         // no padding
         return;
     }
@@ -245,8 +245,9 @@ fn zero_right_pad_integer_ascii_digits(
 
     let total_additional_zeros = integer_zero_count.saturating_add(fraction_zero_char_count);
 
-    // no padding if out of bounds
-    if total_additional_zeros > FMT_MAX_INTEGER_PADDING {
+    // no padding if out of bounds (the limit applies when a precision was requested;
+    // otherwise the trailing-zero threshold above has already decided)
+    if target_scale.is_some() && total_additional_zeros > FMT_MAX_INTEGER_PADDING {
         return;
     }
 
